@@ -180,4 +180,39 @@ Proof.
   - destruct (M_lappend (h_tree h) key); [discriminate | reflexivity].
 Qed.
 
+(* EXTEND (after fixes 4b2944d / c675c22), no guard: a rejected call returns the very same hierarchy
+   (also on a zero-length hierarchy); an accepted one lists the labels before followed by the other
+   hierarchy's labels in their order *)
+Theorem hier_extend_rejected : forall (h o : hgo L) e,
+  snd (M_hextend L leq h o) = Err e -> fst (M_hextend L leq h o) = h.
+Proof.
+  intros h o e. unfold GrowOnlyHier.M_hextend.
+  destruct (h_tree o); [reflexivity|].
+  destruct (negb (h_depth h =? h_depth o)); [reflexivity|].
+  destruct (h_tree h); [reflexivity|].
+  destruct (root_valid L leq labels0 labels []); [discriminate | reflexivity].
+Qed.
+
+Lemma zip_go_app_gen : forall ks ls ks2 ls2, length ls = length ks ->
+  zip_go (ks ++ ks2) (ls ++ ls2) = zip_go ks ls ++ zip_go ks2 ls2.
+Proof.
+  induction ks as [|c cr IH]; intros [|l lr] ks2 ls2 H; cbn in *; try discriminate; auto.
+  rewrite IH by lia. now rewrite app_assoc.
+Qed.
+
+Theorem hier_extend_correct : forall (h o h' : hgo L),
+  lvl_wf (h_tree h) -> lvl_wf (h_tree o) -> M_hextend L leq h o = (h', Ok tt) ->
+  flatten (h_tree h') = flatten (h_tree h) ++ flatten (h_tree o) /\ lvl_wf (h_tree h') /\ h_depth h' = h_depth h.
+Proof.
+  intros h o h' Hw Hwo. unfold GrowOnlyHier.M_hextend.
+  destruct (h_tree o) as [|ols okids] eqn:Eo; [discriminate|].
+  destruct (negb (h_depth h =? h_depth o)); [discriminate|].
+  destruct (h_tree h) as [|ls kids] eqn:Eh; [discriminate|].
+  destruct (root_valid L leq ls ols []); [|discriminate]. intros E. injection E as <-. cbn.
+  inversion Hw as [|? ? Hl Hk]; subst. inversion Hwo as [|? ? Hlo Hko]; subst.
+  split; [|split; [|reflexivity]].
+  - rewrite !flatten_node. now apply zip_go_app_gen.
+  - constructor; [rewrite !app_length; lia | apply Forall_app; auto].
+Qed.
+
 End HierProofs.
